@@ -17,13 +17,13 @@ IG_T = [1e-3, T1("ig", [1e-4, 5e-4, 2e-3]), T2("ig", [[1e-4, 5e-4, 2e-3], [2e-4,
 SCHEMA = {
     "Source": ("source", {"vo": [5.0, 5, -12.0]}, {"rs": [0.3, 1]}),
     "PLoad": ("pload", {"pwr": [0.2, 1]}, {"pwrs": [0.01], "rt": [5.0, 3], "loss": [True]}),
-    "ILoad": ("iload", {"ii": [0.1, 1]}, {"iis": [0.01], "rt": [5.0], "loss": [True]}),
+    "ILoad": ("iload", {"ii": [0.1, 1, 0.4e-9]}, {"iis": [0.01, 1.2e-10], "rt": [5.0], "loss": [True]}),
     "RLoad": ("rload", {"rs": [40.0, 33]}, {"rt": [5.0], "loss": [True]}),
     "RLoss": ("rloss", {"rs": [0.7, 1]}, {"rt": [5.0, 2]}),
     "VLoss": ("vloss", {"vdrop": [0.3, 1, T1("vdrop", [0.1, 0.2, 0.3]), T2("vdrop", [[0.1, 0.2, 0.3], [0.15, 0.25, 0.35]])]}, {"rt": [5.0]}),
     "Converter": ("converter", {"vo": [3.3, 3, -3.3], "eff": [0.85, T1("eff", [0.6, 0.8, 0.9]), T2("eff", [[0.6, 0.8, 0.9], [0.5, 0.7, 0.8]])]},
-                  {"iq": [1e-3], "iis": [1e-4], "rt": [5.0, 7]}),
-    "LinReg": ("linreg", {"vo": [3.3, 3]}, {"vdrop": [0.4], "ig": IG_T, "iis": [1e-4], "rt": [5.0]}),
+                  {"iq": [1e-3, 0.35e-9], "iis": [1e-4], "rt": [5.0, 7]}),
+    "LinReg": ("linreg", {"vo": [3.3, 3]}, {"vdrop": [0.4], "ig": IG_T, "iq": [1.5e-3], "iis": [1e-4, 0.45e-9], "rt": [5.0]}),
     "PSwitch": ("pswitch", {}, {"rs": [0.2, 1], "ig": IG_T, "iis": [1e-4], "rt": [5.0]}),
     "PMux": ("pmux", {}, {"rs": [0.2, [0.2, 0.3], 1], "ig": IG_T, "iis": [1e-4], "rt": [5.0]}),
     "Rectifier": ("rectifier", {"vdrop": [0.0, 0.3, 0, T1("vdrop", [0.1, 0.2, 0.3])]}, {"rs": [0.2], "ig": IG_T, "iq": [1e-4], "rt": [5.0]}),
@@ -180,7 +180,10 @@ def gen_cases(tier):
             yield dict(fam="missing", kind=kind, P=P, L=None, key=k)
         if kind != "LinReg":
             for k in mkeys + okeys:
-                ok = allowed_types(kind, k)
+                try:
+                    ok = allowed_types(kind, k)
+                except KeyError:  # the loader's type table has no entry for a documented parameter: the equivalence cases report it
+                    continue
                 for wt, val in WRONG.items():
                     if wt == "int-for-bool" and bool not in ok:
                         continue
